@@ -3,7 +3,8 @@ import collections
 import copy
 import sys
 
-import lena
+import lena.context
+import lena.flow
 from lena.core import LenaTypeError, LenaValueError
 
 
